@@ -3,8 +3,8 @@ import collections, random, socket
 from vlib import core, corr
 
 AREA = "C16"
-MODULES = ["TinsModel.Props.C16"]
-AUDIT = "Audit/C16.lean"
+MODULES = ["TinsModel.Props.C16", "TinsModel.Props.Limits.C16"]   # + the constants / limits tied to the source (translator/gen_limits.py)
+AUDIT = ["Audit/C16.lean", "Audit/LimitsC16.lean"]
 LEVEL = "proof"
 HARNESS = "c16_address"
 HARNESS_FLAGS = ["-fno-access-control"]      # the harness prints AddressRange::first_/last_ themselves
@@ -343,6 +343,8 @@ def sig_of(kind, detail, case):
 
 
 def run(chk):
+    from translator import gen_limits
+    gen_limits.main([])          # Gen/Limits.lean: constants and limits read from the current source
     problems = chk.prove(MODULES, AUDIT, want_leanchecker=(chk.tier == "thorough"))
     exe, err = core.build_harness(HARNESS, extra=HARNESS_FLAGS)
     if exe is None:
